@@ -153,6 +153,29 @@ def run(tier, seed):
                     res.violate("applying an included program depends on PYTHONHASHSEED (%s vs %s)" % (seeds[0], s),
                                 {"check": "include-seeds", "main": open(items[i]["path"]).read(), "sub": open(os.path.join(os.path.dirname(items[i]["path"]), "sub.xbb")).read(), "seeds": [seeds[0], s]})
                     break
+        # "every run": the same file loaded again and again in ONE process (after 0, 1 or 2 other template instantiations) gives
+        # bit-identical content every time (counters that grow with the number of earlier instantiations must not matter)
+        d = os.path.join(scratch, "rep")
+        os.makedirs(d)
+        open(os.path.join(d, "tpl.xbb"), "w").write("name Tpl\nversion 1.0\n\nBSgate({theta}+{phi}+{delta}, pi/2) | [0, 1]\n")
+        open(os.path.join(d, "one.xbb"), "w").write("name One\nversion 1.0\n\nRgate({w}) | 0\n")
+        open(os.path.join(d, "main.xbb"), "w").write('name main\nversion 1.0\ninclude "tpl.xbb"\n\nTpl(theta=0.2, phi=0.3, delta=0.4) | [3, 1]\n')
+        open(os.path.join(d, "pre.xbb"), "w").write('name pre\nversion 1.0\ninclude "one.xbb"\n\nOne(w=0.5) | 2\n')
+        nrep = 45 if quick else 400
+        jobs = [([{"kind": "load", "path": os.path.join(d, "pre.xbb")}] * k + [{"kind": "load", "path": os.path.join(d, "main.xbb")}] * nrep, "0", None) for k in (0, 1, 2)]
+        outs = subproc.run_many(jobs)
+        ref = json.dumps(outs[0][0], sort_keys=True)
+        for k, r in zip((0, 1, 2), outs):
+            for n, o in enumerate(r[k:]):
+                res.count("repeated-load")
+                if json.dumps(o, sort_keys=True) != ref:
+                    ok = False
+                    res.violate("load number %d of the same file in one process (after %d other instantiations) differs from the first load: %s vs %s"
+                                % (n, k, json.dumps(o.get("obs", {}).get("ops", o))[:160], json.dumps(outs[0][0].get("obs", {}).get("ops"))[:160]),
+                                {"check": "repeated", "pre": k, "n": n})
+                    break
+            if not ok:
+                break
     finally:
         shutil.rmtree(scratch, ignore_errors=True)
     res.oblige("correspondence: loaded content and dump text identical under %d hash seeds (transforms compared as register set + function values)" % len(seeds), "correspondence", ok)
@@ -165,6 +188,9 @@ def run(tier, seed):
 
 def replay(rep):
     inp = rep["input"]
+    if inp.get("check") == "repeated":
+        print("re-run the check: the violation depends on the number of earlier loads in the process")
+        return run("quick", rep.get("seed", 0))
     if inp.get("check") == "seeds":
         a = subproc.run_batch([{"kind": "loads", "text": inp["text"]}], inp["seeds"][0])
         b = subproc.run_batch([{"kind": "loads", "text": inp["text"]}], inp["seeds"][1])
